@@ -253,6 +253,63 @@ theorem readback_lossless_full_is_false : ¬ readback_lossless_full := by
   rw [this.2] at h2
   cases h2
 
+/-! ### multi-row results: the column's type string moves after the first row -/
+
+/-- the type string in force for the rows after the first -/
+def laterType (t : ColType) (first : SqlVal) : ColType :=
+  populate t (normalize (isTextTy t) (drv .plain first))
+
+/-- every row of a column is lossless unless it is excluded WITH THE TYPE IN FORCE FOR THAT ROW: the
+declared one for the first row, the populated one afterwards -/
+theorem readColumn_lossless_partial (t : ColType) (blobArray : Bool) (first : SqlVal) (rest : List SqlVal)
+    (h1 : excluded (isTextTy t) first = false)
+    (h2 : ∀ w ∈ rest, excluded (isTextTy (laterType t first)) w = false) :
+    ∀ p ∈ (first :: rest).zip (readColumn .plain t blobArray (first :: rest)),
+      ∃ j, p.2 = some j ∧ decode j = some p.1 := by
+  intro p hp
+  simp only [readColumn, List.zip_cons_cons, List.mem_cons] at hp
+  rcases hp with hp | hp
+  · subst hp
+    exact readback_lossless_partial (isTextTy t) blobArray first h1
+  · rw [List.zip_map_right] at hp
+    simp only [List.mem_map] at hp
+    obtain ⟨⟨a, b⟩, hab, rfl⟩ := hp
+    have hmem := List.of_mem_zip hab
+    have : a = b := by
+      have := List.mem_iff_get.mp hab
+      obtain ⟨i, hi⟩ := this
+      simp only [List.get_eq_getElem, List.getElem_zip, Prod.mk.injEq] at hi
+      rw [← hi.1, ← hi.2]
+    subst this
+    exact readback_lossless_partial (isTextTy (laterType t first)) blobArray a (h2 a hmem.1)
+
+/-- In a column WITHOUT declared type (untyped column, expression) whose first row holds an INTEGER or
+a REAL, every later BLOB is returned as a blob, losslessly: the type string has become "integer" /
+"real". This is the code that exists (populateEmptyTypes + the per-value isTextType check). -/
+theorem untyped_numeric_first_row_keeps_later_blobs (blobArray : Bool) (first : SqlVal)
+    (hnum : (∃ z, first = .integer z) ∨ (∃ f, first = .real f)) (bs : List UInt8) (rest : List SqlVal)
+    (hb : SqlVal.blob bs ∈ rest) :
+    some (if blobArray then JOut.arr bs else JOut.b64 bs) ∈
+      (readColumn .plain .empty blobArray (first :: rest)).tail := by
+  have ht : isTextTy (laterType .empty first) = false := by
+    rcases hnum with ⟨z, rfl⟩ | ⟨f, rfl⟩
+    · rfl
+    · cases f <;> rfl
+  simp only [readColumn, List.tail_cons, List.mem_map]
+  refine ⟨.blob bs, hb, ?_⟩
+  have : populate ColType.empty (normalize (isTextTy ColType.empty) (drv Decl.plain first)) = laterType .empty first := rfl
+  rw [this, ht]
+  cases blobArray <;> rfl
+
+/-- … whereas after a NULL, TEXT or BLOB first row the later blob goes through string(val) (the
+recorded known finding); after a NULL the type string stays empty for good -/
+theorem untyped_other_first_row_witness :
+    readColumn .plain .empty false [.null, .blob [0, 255, 65]] = [some .null, some (.lossyStr [0, 255, 65])] ∧
+    readColumn .plain .empty false [.text "a", .blob [104, 105]] = [some (.str "a"), some (.lossyStr [104, 105])] ∧
+    readColumn .plain .empty false [.blob [1], .blob [2]] = [some (.lossyStr [1]), some (.lossyStr [2])] ∧
+    readColumn .plain .empty false [.integer 7, .blob [0, 255, 65]] = [some (.num 7), some (.b64 [0, 255, 65])] := by
+  decide
+
 /-! ### the associative form -/
 
 theorem find_last_nodup (cols : List String) (vals : List JOut) (i : Nat) (hn : cols.Nodup)
